@@ -1,0 +1,93 @@
+//go:build verif
+
+package provider
+
+// Machine-checked contracts for /verif/govc (contract-based deductive verification).
+// This file contains comments only; it is compiled only with -tags verif and adds no code.
+//
+// Killing / shutting down a provider (C23). The provider and its stake pool are reached through
+// the AbstractProvider / AbstractStakePool interfaces; what the calls do is recorded in ghost state:
+//   $pKilled[o] / $pShut[o]   provider object o is marked killed / shut down
+//   $pFromAlive[o]            the last Kill()/ShutDown() on provider o found it alive (neither flag set)
+//   $spDead[o]                stake pool object o is marked dead
+//   $spSlashes[o]             number of times stake pool object o has been slashed
+//@ ghost $pKilled (Int) Bool
+//@ ghost $pShut (Int) Bool
+//@ ghost $pFromAlive (Int) Bool
+//@ ghost $spDead (Int) Bool
+//@ ghost $spSlashes (Int) Int
+
+//@ iface 0chain.net/smartcontract/provider.AbstractProvider.IsKilled
+//@   params self
+//@   pure
+//@   ensures result == $pKilled[obj(self)]
+
+//@ iface 0chain.net/smartcontract/provider.AbstractProvider.IsShutDown
+//@   params self
+//@   pure
+//@   ensures result == $pShut[obj(self)]
+
+//@ iface 0chain.net/smartcontract/provider.AbstractProvider.Kill
+//@   params self
+//@   modifies $pKilled, $pFromAlive
+//@   ensures $pKilled[obj(self)] && $pFromAlive[obj(self)] == (!old($pKilled[obj(self)]) && !$pShut[obj(self)])
+//@   ensures forall o int :: o != obj(self) ==> $pKilled[o] == old($pKilled[o]) && $pFromAlive[o] == old($pFromAlive[o])
+
+//@ iface 0chain.net/smartcontract/provider.AbstractProvider.ShutDown
+//@   params self
+//@   modifies $pShut, $pFromAlive
+//@   ensures $pShut[obj(self)] && $pFromAlive[obj(self)] == (!$pKilled[obj(self)] && !old($pShut[obj(self)]))
+//@   ensures forall o int :: o != obj(self) ==> $pShut[o] == old($pShut[o]) && $pFromAlive[o] == old($pFromAlive[o])
+
+//@ iface 0chain.net/smartcontract/provider.AbstractProvider.Id
+//@   params self
+//@   pure
+
+//@ iface 0chain.net/smartcontract/provider.AbstractProvider.Type
+//@   params self
+//@   pure
+
+// The stake pool seen through its interface (implemented by stakepool.StakePool, whose own Kill /
+// DistributeRewards contracts are in package stakepool).
+//@ iface 0chain.net/smartcontract/stakepool.AbstractStakePool.Kill
+//@   params self killSlash providerId pType balances
+//@   modifies $spDead, $spSlashes
+//@   ensures $spDead[obj(self)] && $spSlashes[obj(self)] == old($spSlashes[obj(self)]) + 1
+//@   ensures forall o int :: o != obj(self) ==> $spDead[o] == old($spDead[o]) && $spSlashes[o] == old($spSlashes[o])
+
+//@ iface 0chain.net/smartcontract/stakepool.AbstractStakePool.Save
+//@   params self providerType providerID balances
+//@   pure
+
+//@ iface 0chain.net/smartcontract/stakepool.AbstractStakePool.GetSettings
+//@   params self
+//@   pure
+
+//@ assume func (*ProviderRequest).Decode
+//@   modifies pr.ID
+
+// Kill: only the contract owner; the provider must have been alive; its stake pool is slashed once
+// by the configured fraction and saved under the id of the provider named in the request - no other
+// key is written.
+//@ func Kill
+//@   prop C23
+// the loader and the refresher passed in by the caller do not themselves kill or slash anything
+//@   callback providerSpecific preserves $spSlashes, $spDead
+//@   callback refreshProvider preserves $spSlashes, $spDead
+//@   ensures[owner-only] ownerId != clientID ==> result != nil
+//@   at-call AbstractProvider.Kill assert[only-owner-marks] ownerId == clientID
+//@   at-call AbstractProvider.Kill assert[only-alive-is-killed] !$pKilled[obj($arg0)] && !$pShut[obj($arg0)]
+//@   at-call AbstractStakePool.Kill assert[slashed-once-when-taken-from-alive] $pFromAlive[obj(p)] && $arg0 == sp && $spSlashes[obj(sp)] == old($spSlashes[obj(sp)])
+//@   at-call AbstractStakePool.Kill assert[configured-fraction] $arg1 == killSlash
+//@   at-call AbstractStakePool.Save assert[own-pool-under-own-id] $arg0 == sp && $arg2 == req.ID && $spDead[obj(sp)] && $spSlashes[obj(sp)] == old($spSlashes[obj(sp)]) + 1
+
+// ShutDown: by the contract owner or the provider's delegate wallet (checked before success is
+// reported: a failing transaction is rolled back as a whole, C02); otherwise as Kill.
+//@ func ShutDown
+//@   prop C23
+//@   callback providerSpecific preserves $spSlashes, $spDead
+//@   callback refreshProvider preserves $spSlashes, $spDead
+//@   at-call AbstractProvider.ShutDown assert[only-alive-is-shut-down] !$pKilled[obj($arg0)] && !$pShut[obj($arg0)]
+//@   at-call AbstractStakePool.Kill assert[slashed-once-when-taken-from-alive] $pFromAlive[obj(p)] && $arg0 == sp && $spSlashes[obj(sp)] == old($spSlashes[obj(sp)])
+//@   at-call AbstractStakePool.Kill assert[configured-fraction] $arg1 == killSlash
+//@   at-call AbstractStakePool.Save assert[own-pool-under-own-id] $arg0 == sp && $arg2 == req.ID && $spDead[obj(sp)] && $spSlashes[obj(sp)] == old($spSlashes[obj(sp)]) + 1
